@@ -144,13 +144,18 @@ def ssKvs (ss : List Sel) : List KV := (.braceL, none) :: selsKvs ss ++ [(.brace
 
 /-! ### well-formedness (image of the parser) -/
 
-def argsWf (args : Args) : Prop := Val.wfFields false args
+/-- `c` = the directive / argument stands in a constant position (`parse_const_directives`). -/
+def argsWfC (c : Bool) (args : Args) : Prop := Val.wfFields c args
 
-def dirWf (d : Dir) : Prop := validName d.name = true ∧ argsWf d.args
+def dirWfC (c : Bool) (d : Dir) : Prop := validName d.name = true ∧ argsWfC c d.args
 
-def dirsWf : List Dir → Prop
+def dirsWfC (c : Bool) : List Dir → Prop
   | [] => True
-  | d :: r => dirWf d ∧ dirsWf r
+  | d :: r => dirWfC c d ∧ dirsWfC c r
+
+abbrev argsWf (args : Args) : Prop := argsWfC false args
+abbrev dirWf (d : Dir) : Prop := dirWfC false d
+abbrev dirsWf (ds : List Dir) : Prop := dirsWfC false ds
 
 mutual
   def selWf : Sel → Prop
